@@ -94,9 +94,16 @@ static char tls_variant = 'a';
 static void tls_destroy(ppointer p) { int id; if (p == NULL) { null_destroy_count(); return; } id = (int)((char *)p - (char *)vals) / (int)sizeof vals[0]; tls_destroy_count(id); }
 MC_NOINSTR static int destroyed_of(int id) { return vals[id].destroyed; }
 
+static volatile pint tls_holding, tls_may_exit;
 static ppointer tls_body(ppointer arg)
 {
     int me = (int)(long)arg, b = me * 4; ppointer got;
+    if (tls_variant == 'c') {          /* the key reference is freed by the creator while this thread still holds a value: the value is still destroyed once at exit */
+        p_uthread_set_local(key, &vals[b + 2]);
+        p_atomic_int_set(&tls_holding, 1);
+        while (!p_atomic_int_get(&tls_may_exit)) p_uthread_yield();
+        return NULL;
+    }
     if (tls_variant == 'b') {          /* replace on an empty slot, replace with NULL, then a value left at exit */
         p_uthread_replace_local(key, &vals[b + 0]);
         if (destroyed_of(b + 0) != 0) mc_fail("C05", "tls/replace-destroyed-new-value", "replace_local on an empty slot passed the new value to the destroy notifier");
@@ -127,6 +134,15 @@ static void h_tls(int argc, char **argv)
     key = p_uthread_local_new(tls_destroy);
     if (!key) mc_fail("C05", "local-new-failed", "p_uthread_local_new returned NULL");
     for (i = 0; i < n; i++) t[i] = p_uthread_create(tls_body, (ppointer)(long)i, TRUE, NULL);
+    if (tls_variant == 'c') {
+        while (!p_atomic_int_get(&tls_holding)) p_uthread_yield();
+        p_uthread_local_free(key);
+        p_atomic_int_set(&tls_may_exit, 1);
+        p_uthread_join(t[0]); p_uthread_unref(t[0]);
+        if (destroyed_of(2) != 1) mc_fail("C05", "tls/exit-value-destroy-count/key-freed-first", "a value left at thread exit was destroyed %d times (expected exactly once) when the key reference had been freed while the thread was still running", destroyed_of(2));
+        mc_nontrivial(0); mc_outcome("ok");
+        return;
+    }
     for (i = 0; i < n; i++) { p_uthread_join(t[i]); p_uthread_unref(t[i]); }
     for (i = 0; i < n; i++) {
         int b = i * 4;
